@@ -108,6 +108,15 @@ Proof.
   destruct pad as [[b a]|]; destruct sc; repeat split; reflexivity.
 Qed.
 
+(* path_padding works on a COPY of the stored position path: apply_move / apply_rotation never update an
+   object's stored array in place (a view of it, e.g. child.position, may be the input of the same call) *)
+Theorem path_copy_translated :
+  get "path_padding" "assign" "ppath" 0 flow =
+    PCall (PAttr (PAttr (PName "target_object") "_position") "copy") [] [] /\
+  get "path_padding" "assign" "opath" 0 flow =
+    PCall (PAttr (PAttr (PName "target_object") "_orientation") "as_quat") [] [].
+Proof. split; reflexivity. Qed.
+
 (* apply_move / apply_rotation update exactly the slice [start:end) that path_padding returned *)
 Theorem update_slices_translated :
   find_nth "apply_move" "aug+" "ppath[start:end]" 0 flow = Some (PName "inpath") /\
